@@ -5,3 +5,5 @@ import ReuseVerif.Spec.Ignore
 import ReuseVerif.Py.Re
 import ReuseVerif.Model.Glob
 import ReuseVerif.Spec.Glob
+import ReuseVerif.Model.Dep5
+import ReuseVerif.Spec.Dep5
